@@ -14,11 +14,22 @@ pub fn rt<A: Sx, const K: usize, S: Store>(v: u128) -> (Result<u128, String>, Re
         if back != k {
             return Err(format!("deserialized k-mer != original ({:#x} vs {v:#x})", back.bs.to_u128()));
         }
+        // and through io::Write / io::Read
+        let mut w: Vec<u8> = Vec::new();
+        bincode::serialize_into(&mut w, &k).map_err(|e| format!("serialize_into: {e}"))?;
+        let back2: Kmer<A, K, S> = bincode::deserialize_from(std::io::Cursor::new(&w)).map_err(|e| format!("deserialize_from: {e}"))?;
+        if back2 != k {
+            return Err(format!("k-mer read back from a stream != original ({:#x} vs {v:#x})", back2.bs.to_u128()));
+        }
         Ok(back.bs.to_u128())
     })();
     let j = (|| {
         let txt = serde_json::to_string(&k).map_err(|e| format!("serialize: {e}"))?;
         let back: Kmer<A, K, S> = serde_json::from_str(&txt).map_err(|e| format!("deserialize {txt}: {e}"))?;
+        let back2: Kmer<A, K, S> = serde_json::from_reader(txt.as_bytes()).map_err(|e| format!("from_reader {txt}: {e}"))?;
+        if back2 != k {
+            return Err(format!("k-mer read back from a JSON stream != original ({:#x} vs {v:#x})", back2.bs.to_u128()));
+        }
         if back != k {
             return Err(format!("deserialized k-mer != original ({:#x} vs {v:#x})", back.bs.to_u128()));
         }
